@@ -95,13 +95,13 @@ def Statement_binop_spec : Prop :=
     (∀ t c, abs (gXor xs inA ys inB r) t c ↔ (((A t a ∧ ¬ B t b) ∨ (B t b ∧ ¬ A t a)) ∧ c = r)) ∧
     Inv (gUnion xs ys r) ∧ Inv (gDiff xs inB r) ∧ Inv (gInter inA ys r) ∧ Inv (gXor xs inA ys inB r)
 
-/-- iteration under mutation (default store): for every history before the generator starts and every
-    schedule of mutations, candidate loads and `next` steps, nothing raises and every yielded triple
+/-- iteration under mutation (default store): for every history (store-level and `Graph`-level calls) before
+    the generator starts and every schedule of such mutations, candidate loads and `next` steps, nothing raises and every yielded triple
     matched the pattern and was in the graph in one of the states since the generator began -/
 def Statement_iter_sound : Prop :=
-  ∀ (pre : List Op) (pat : Pat) (g : Nat) (evs : List Ev),
-    schedRaises (Mem.init.run pre) (Iter.start (Mem.init.run pre) pat g) evs = false ∧
-    ∀ y ∈ yields [Mem.init.run pre] (Mem.init.run pre) (Iter.start (Mem.init.run pre) pat g) evs,
+  ∀ (pre : List StOp) (pat : Pat) (g : Nat) (evs : List Ev),
+    schedRaises (Mem.init.stRun pre) (Iter.start (Mem.init.stRun pre) pat g) evs = false ∧
+    ∀ y ∈ yields [Mem.init.stRun pre] (Mem.init.stRun pre) (Iter.start (Mem.init.stRun pre) pat g) evs,
       pat.matches y.1 = true ∧ ∃ m' ∈ y.2, abs m' y.1 g
 
 /-! ### Statements: the `Memory` store API itself (what C02, C10, C13, C18, C20 assume of the store)
@@ -293,9 +293,9 @@ theorem binop_spec : Statement_binop_spec := by
 
 theorem iter_sound : Statement_iter_sound := by
   intro pre pat g evs
-  have hI := run_inv pre _ inv_init
+  have hI := stRun_inv pre _ inv_init
   refine ⟨sched_no_raise evs _ _ hI, ?_⟩
-  exact yields_sound pat g evs [Mem.init.run pre] (Mem.init.run pre) _ hI (by simp)
+  exact yields_sound pat g evs [Mem.init.stRun pre] (Mem.init.stRun pre) _ hI (by simp)
     (start_pat _ _ _) (start_g _ _ _) (pendingOk_start hI pat g)
 
 /-- simulation relation between the store model and `(Q, K)` -/
@@ -454,7 +454,7 @@ example : (Mem.init.stRun exStOps).contexts (none, none, none) = [1, 2, 7] ∧
 
 /-- a schedule on which the generator really yields between mutations -/
 def exEvs : List Ev :=
-  [.load [(1, 2, 3), (1, 2, 4)], .next, .mutate (.remove (some 1, some 2, some 4) 1), .next]
+  [.load [(1, 2, 3), (1, 2, 4)], .next, .mutate (.remove (some 1, some 2, some 4) none), .next]
 
 example : (yields [Mem.init.run [.add (1, 2, 3) 0, .add (1, 2, 4) 1]] (Mem.init.run [.add (1, 2, 3) 0, .add (1, 2, 4) 1])
     (Iter.start (Mem.init.run [.add (1, 2, 3) 0, .add (1, 2, 4) 1]) (some 1, some 2, none) 0) exEvs).map (·.1)
